@@ -75,7 +75,7 @@ def run(ck: Checker, prog: Program, tier: str):
         mask_var, pass_var = got if got else (None, None)
         if mask_var is None:
             continue
-        ck.guard(_r2, ck, f, mask_var, pass_var)
+        ck.guard(_r2, ck, f, mask_var, pass_var, prog)
         ck.guard(_r4, ck, f, mask_var, pass_var)
     ck.guard(_r5_r6_sta, ck, prog)
     ck.guard(_r5_r6_max, ck, prog)
@@ -228,14 +228,120 @@ def _record_loop(f, pass_var: str):
     return None
 
 
-def _r2(ck: Checker, f, mask_var: str, pass_var: str):
+def _loop_verdicts(f, mask_var: str, pass_var: str):
+    """One pass of the per-record loop as a decision table.  Returns (loop, REC, rows) with one row per complete pass:
+    dict(leaf, verdict (True/False/None = not a decided boolean), n_mask, n_pass, pass_ok, other, exit)."""
+    from ..pathtable import PathTable, literals, same_rel, negate
+    loop = _record_loop(f, pass_var)
+    if loop is None:
+        return None
+    top = [l for l in PathTable(None, f.module, unroll=True).leaves(f.node.body) if id(loop) in l.snaps]
+    if not top:
+        raise AnalysisError(f"{f.qualname}: the per-record loop is not reached")
+    env = dict(top[0].snaps[id(loop)][0])
+    MASK, PASS, REC = sp.Symbol(mask_var, real=True), sp.Symbol(pass_var, real=True), sp.Symbol("<record>", real=True)
+    env[mask_var], env[pass_var] = MASK, PASS
+    rec_var = _rec_var(loop)
+    if rec_var is None:
+        raise AnalysisError(f"{f.qualname}: the record variable of the per-record loop was not identified")
+    env[rec_var] = REC
+    for nm in [n.id for n in ast.walk(loop.target) if isinstance(n, ast.Name) and n.id != rec_var]:
+        env[nm] = sp.Symbol(f"<{nm}>", real=True)
+    leaves = PathTable(None, f.module, env=env, unroll=True, search_loops=True).leaves(loop.body)
+    rows = []
+    for l in leaves:
+        if l.exit == "raise":
+            continue
+        lits = literals(l)
+        mask_vals, n_pass, pass_ok, other = [], 0, True, 0
+        for e in l.events:
+            v = e[2]
+            fn = getattr(getattr(v, "func", None), "__name__", "")
+            if e[0] == "call" and fn == "append" and v.args[0] == MASK:
+                mask_vals.append(v.args[1])
+            elif e[0] == "call" and fn == "append" and v.args[0] == PASS:
+                n_pass += 1
+                pass_ok = pass_ok and v.args[1] == REC
+            elif e[0] == "call" and hasattr(v, "args") and v.args and v.args[0] in (MASK, PASS):
+                other += 1
+            elif e[0] == "store" and e[1].split("[")[0].split(".")[0] in (mask_var, pass_var):
+                other += 1
+        if l.env.get(mask_var) != MASK or l.env.get(pass_var) != PASS:
+            other += 1
+        verdict = None
+        if len(mask_vals) == 1:
+            V = mask_vals[0]
+            if V in (sp.true, sp.false):
+                verdict = bool(V)
+            elif isinstance(V, sp.logic.boolalg.Boolean):
+                if any(same_rel(x, V) for x in lits):
+                    verdict = True
+                elif any(same_rel(x, negate(V)) for x in lits):
+                    verdict = False
+        rows.append(dict(leaf=l, verdict=verdict, n_mask=len(mask_vals), n_pass=n_pass, pass_ok=pass_ok, other=other, exit=l.exit, lits=lits))
+    return loop, REC, rows
+
+
+def _rec_var(loop: ast.For) -> Optional[str]:
+    tgt, it = loop.target, loop.iter
+    if isinstance(tgt, ast.Name):
+        return tgt.id
+    if isinstance(tgt, ast.Tuple):
+        if isinstance(it, ast.Call) and call_name(it) == "zip":
+            for a, t in zip(it.args, tgt.elts):
+                if isinstance(a, ast.Name) and a.id == "records" and isinstance(t, ast.Name):
+                    return t.id
+        elif isinstance(it, ast.Call) and call_name(it) == "enumerate" and len(tgt.elts) == 2 and isinstance(tgt.elts[1], ast.Name):
+            return tgt.elts[1].id
+    return None
+
+
+def _r2(ck: Checker, f, mask_var: str, pass_var: str, prog: Optional[Program] = None):
+    """Primary: decision table of one pass of the per-record loop (flags, for/else, early `continue` are all the same table).
+    Fallback when a verdict is not a decided boolean on some path: CFG event counting of literal appends."""
+    fq = f.qualname
+    try:
+        got = _loop_verdicts(f, mask_var, pass_var)
+    except AnalysisError:
+        got = "fallback"
+    if got is None or got == "fallback" or any(r["verdict"] is None and r["n_mask"] == 1 for r in got[2]):
+        return _r2_cfg(ck, f, mask_var, pass_var, prog)
+    loop, REC, rows = got
+    it = loop.iter
+    names = {n.id for n in ast.walk(it) if isinstance(n, ast.Name)}
+    if "records" not in names or any(call_name(c) in ("reversed", "sorted") for c in calls_in(it)) \
+            or any(isinstance(x, ast.Slice) for x in ast.walk(it)):
+        ck.violation("C13.R2", fq, norm_key(loop), "the per-record loop does not visit `records` in their given order", loc=f.loc(loop))
+    bad = []
+    for r in rows:
+        if r["exit"] not in ("fall", "continue"):
+            bad.append(f"a pass of the loop ends the loop early ({r['exit']})")
+        elif r["n_mask"] != 1:
+            bad.append(f"a pass of the loop appends {r['n_mask']} mask entries")
+        elif r["other"]:
+            bad.append("a pass of the loop writes the lists other than by one append each")
+        elif r["verdict"] and not (r["n_pass"] == 1 and r["pass_ok"]):
+            bad.append(f"verdict True but the record is appended x{r['n_pass']}" + ("" if r["pass_ok"] else " (not the record itself)"))
+        elif not r["verdict"] and r["n_pass"] != 0:
+            bad.append(f"verdict False but the record is kept")
+    if not rows:
+        ck.violation("C13.R2", fq, norm_key(loop), "no complete iteration path found", loc=f.loc(loop))
+    elif bad:
+        ck.violation("C13.R2", fq, norm_key(loop), "an iteration of the per-record loop can end with " + "; ".join(sorted(set(bad))[:3]) +
+                     " - expected exactly (True & kept) or (False & not kept)", loc=f.loc(loop))
+    else:
+        ck.ok("C13.R2", fq, norm_key(loop), detail=f"{len(rows)} passes: one boolean per record; kept exactly when True")
+    _list_hygiene(ck, f, loop, mask_var, pass_var)
+
+
+def _r2_cfg(ck: Checker, f, mask_var: str, pass_var: str, prog: Optional[Program] = None):
     fq = f.qualname
     cfg = cfg_of(f)
     loop = _record_loop(f, pass_var)
     if loop is None:
-        fb = _comprehension_form(f, mask_var, pass_var)
+        fb = _comprehension_form(f, mask_var, pass_var, prog)
         if fb is None:
-            raise AnalysisError(f"{fq}: construction of `{mask_var}` / `{pass_var}` not recognised (neither an append loop nor aligned comprehensions)")
+            raise AnalysisError(f"{fq}: construction of `{mask_var}` / `{pass_var}` not recognised (neither an append loop nor an element-wise decision over per-record values)")
         problems = fb["problems"]
         if not problems:
             ck.ok("C13.R2", fq, f"{mask_var} = [<decision> for each per-record value]; {pass_var} = [record for record, keep in zip(records, {mask_var}) if keep]",
@@ -303,6 +409,12 @@ def _r2(ck: Checker, f, mask_var: str, pass_var: str):
                      " - expected exactly (True & kept) or (False & not kept)", loc=f.loc(loop))
     else:
         ck.ok("C13.R2", fq, norm_key(loop), detail=f"iteration outcomes {sorted(res)}")
+    _list_hygiene(ck, f, loop, mask_var, pass_var)
+
+
+def _list_hygiene(ck: Checker, f, loop, mask_var: str, pass_var: str):
+    fq = f.qualname
+    cfg = cfg_of(f)
     # the lists start empty and are not touched elsewhere
     for var in (mask_var, pass_var):
         inits = [st for st in own_nodes(f.node) if isinstance(st, ast.Assign) and any(isinstance(t, ast.Name) and t.id == var for t in st.targets)]
@@ -339,55 +451,88 @@ def _mask_pass_names(f):
     return next(iter(mv)), rets[-1].value.id
 
 
-def _comprehension_form(f, mask_var: str, pass_var: str):
-    """mask = [D(v) for v in S]; passing = [r for r, ok in zip(records, mask) if ok]; S holds one value per record, in order."""
-    defs = {}
-    for st in f.node.body:
-        if isinstance(st, ast.Assign) and len(st.targets) == 1 and isinstance(st.targets[0], ast.Name):
-            defs.setdefault(st.targets[0].id, []).append(st)
-    md, pd = defs.get(mask_var, []), defs.get(pass_var, [])
-    if len(md) != 1 or len(pd) != 1 or not isinstance(md[0].value, ast.ListComp) or not isinstance(pd[0].value, ast.ListComp):
+def _comprehension_form(f, mask_var: str, pass_var: str, prog: Optional[Program] = None):
+    """Loop-free construction, by value: the decision list is D applied to every element of a sequence S that holds one value
+    per record (a comprehension, or a vectorised comparison turned into a list), and the kept records are those whose entry is
+    True (selected through the decision list itself, or by re-evaluating D on the same S)."""
+    from ..resolve import Resolver
+    rets = [r for r in own_nodes(f.node) if isinstance(r, ast.Return)]
+    if not rets:
         return None
-    mc, pc = md[0].value, pd[0].value
+    RR = Resolver(prog, f, inline=False)
+    load = lambda nm: ast.Name(id=nm, ctx=ast.Load())   # noqa: E731
+    try:
+        mv, pv = RR.value(load(mask_var), rets[-1]), RR.value(load(pass_var), rets[-1])
+    except AnalysisError:
+        return None
+    fn = lambda e: getattr(getattr(e, "func", None), "__name__", "")   # noqa: E731
+    X = sp.Symbol("<value>", real=True)
+    rel_types = (sp.Gt, sp.Ge, sp.Lt, sp.Le)
+    params = {sp.Symbol(p_, real=True) for p_ in f.params}
+    D = S = None
     problems = []
-    if len(mc.generators) != 1 or mc.generators[0].ifs or not isinstance(mc.generators[0].target, ast.Name):
+    if fn(mv) in ("list", "tuple") and len(mv.args) == 1:
+        mv_in = mv.args[0]
+    else:
+        mv_in = mv
+    if fn(mv_in) == "comp" and len(mv_in.args) == 2 and fn(mv_in.args[1]) == "gen" and len(mv_in.args[1].args) == 2:
+        var, S = mv_in.args[1].args
+        elt = mv_in.args[0]
+        if isinstance(elt, sp.Piecewise) and len(elt.args) == 2 and elt.args[0][0] == sp.true and elt.args[1][0] == sp.false:
+            elt = elt.args[0][1]
+        if fn(elt) in ("bool", "bool_", "truth") and len(elt.args) == 1:
+            elt = elt.args[0]
+        if isinstance(elt, rel_types):
+            D = type(elt)(elt.lhs.xreplace({var: X}), elt.rhs.xreplace({var: X}), evaluate=False)
+        else:
+            problems.append(f"a mask entry is `{elt}`, not a boolean decision")
+    elif fn(mv_in) == "tolist" and len(mv_in.args) == 1 and isinstance(mv_in.args[0], rel_types):
+        rel = mv_in.args[0]
+        sides = [x for x in (rel.lhs, rel.rhs) if not (x.free_symbols <= params)]
+        if len(sides) != 1:
+            return None
+        S = sides[0]
+        D = type(rel)(X if rel.lhs == S else rel.lhs, X if rel.rhs == S else rel.rhs, evaluate=False)
+    else:
         return None
-    v = mc.generators[0].target.id
-    S = mc.generators[0].iter
-    elt = mc.elt
-    dec = None
-    if isinstance(elt, ast.IfExp) and isinstance(elt.body, ast.Constant) and isinstance(elt.orelse, ast.Constant) \
-            and elt.body.value is True and elt.orelse.value is False:
-        dec = elt.test
-    elif isinstance(elt, ast.Compare):
-        dec = elt
-    elif isinstance(elt, ast.Call) and call_name(elt) in ("bool", "bool_") and len(elt.args) == 1:
-        dec = elt.args[0]
-    if dec is None:
-        problems.append(f"a mask entry is `{unparse(elt)}`, not a boolean decision")
-    # alignment of S with records
+    # the kept records
+    okp = False
+    if fn(pv) == "comp" and len(pv.args) == 2 and fn(pv.args[1]) == "gen" and len(pv.args[1].args) == 3:
+        var, seq, cnd = pv.args[1].args
+        item = sp.Function("item")
+        first, second = item(var, sp.Integer(0)), item(var, sp.Integer(1))
+        if pv.args[0] == first and fn(seq) == "zip" and len(seq.args) == 2 and seq.args[0] == sp.Symbol("records", real=True):
+            if fn(cnd) == "truth":
+                cnd = cnd.args[0]
+            if seq.args[1] == mv and cnd in (second, sp.Eq(second, sp.true, evaluate=False)):
+                okp = True
+            elif D is not None and seq.args[1] == S and isinstance(cnd, rel_types) and \
+                    type(cnd)(cnd.lhs.xreplace({second: X}), cnd.rhs.xreplace({second: X}), evaluate=False) == D:
+                okp = True
+    if not okp:
+        problems.append(f"`{pass_var}` ({pv}) is not the records whose decision is True, in order")
+    # S holds one value per record, in order
     aligned = False
-    if isinstance(S, ast.Name) and S.id == "records":
+    REC = sp.Symbol("records", real=True)
+    if S == REC:
         aligned = True
-    elif isinstance(S, ast.Name):
+    elif fn(S) in ("comp",) and len(S.args) == 2 and fn(S.args[1]) == "gen" and len(S.args[1].args) == 2 and S.args[1].args[1] == REC:
+        aligned = True
+    elif getattr(S, "is_Symbol", False):
         for lp in [st for st in f.node.body if isinstance(st, ast.For)]:
             if unparse(lp.iter) == "enumerate(records)" and isinstance(lp.target, ast.Tuple) and len(lp.target.elts) == 2:
                 ix = unparse(lp.target.elts[0])
                 stores = [x for x in ast.walk(lp) if isinstance(x, ast.Assign) and isinstance(x.targets[0], ast.Subscript)
-                          and unparse(x.targets[0].value) == S.id and unparse(x.targets[0].slice) == ix]
+                          and unparse(x.targets[0].value) == S.name and unparse(x.targets[0].slice) == ix]
                 if len(stores) == 1 and not any(isinstance(x, (ast.Break, ast.Continue)) for x in ast.walk(lp) if _loop_of(x) is lp):
                     aligned = True
     if not aligned:
-        problems.append(f"the decisions are taken over `{unparse(S)}`, which is not known to hold one value per record in order")
-    g = pc.generators[0] if len(pc.generators) == 1 else None
-    okp = g is not None and isinstance(g.iter, ast.Call) and call_name(g.iter) == "zip" and [unparse(a) for a in g.iter.args] == ["records", mask_var] \
-        and isinstance(g.target, ast.Tuple) and len(g.target.elts) == 2 and len(g.ifs) == 1 \
-        and unparse(g.ifs[0]) == unparse(g.target.elts[1]) and unparse(pc.elt) == unparse(g.target.elts[0])
-    if not okp:
-        problems.append(f"`{pass_var}` is not [record for record, keep in zip(records, {mask_var}) if keep]")
-    if md[0].lineno > pd[0].lineno:
-        problems.append("the kept records are selected before the decisions are made")
-    return {"problems": problems, "decision": dec, "value_var": v, "values": S, "site": md[0]}
+        problems.append(f"the decisions are taken over `{S}`, which is not known to hold one value per record in order")
+    site = None
+    for st in f.node.body:
+        if isinstance(st, ast.Assign) and any(isinstance(t, ast.Name) and t.id == mask_var for t in st.targets):
+            site = st
+    return {"problems": problems, "decision": D, "value": X, "values": S, "site": site if site is not None else rets[-1]}
 
 
 def _loop_of(node):
@@ -430,34 +575,65 @@ def _canon_rel(r):
 def _r5_r6_sta(ck: Checker, prog: Program):
     f = prog.func("window_rejection.sta_lta_window_rejection")
     fq = f.qualname
-    # innermost loop over components
-    inner = None
-    for st in own_nodes(f.node):
-        if isinstance(st, ast.For) and isinstance(st.iter, ast.Name) and st.iter.id == "components":
-            inner = st
-    if inner is None:
-        raise AnalysisError(f"{fq}: loop over `components` not found")
-    # the deciding if: the one containing append(False)
-    decide = None
-    for st in inner.body:
-        if isinstance(st, ast.If) and any(call_name(c) == "append" for c in calls_in(st)):
-            decide = st
-    if decide is None:
-        raise AnalysisError(f"{fq}: deciding `if` with mask append not found in the component loop")
+    names = _mask_pass_names(f)
+    if names is None:
+        raise AnalysisError(f"{fq}: decision list / returned list not identified")
+    got = _loop_verdicts(f, *names)
+    if got is None:
+        raise AnalysisError(f"{fq}: per-record loop not found")
+    loop, REC, rows = got
+    rej = [r for r in rows if r["verdict"] is False]
+    keep = [r for r in rows if r["verdict"] is True]
+    if not rej or not keep or any(r["verdict"] is None for r in rows):
+        raise AnalysisError(f"{fq}: the verdicts of the per-record loop are not decided booleans on every path")
+    # the rejecting pass: the component loop was left because of one component; its conditions after the loop tag, refusals aside
     amp = sp.Symbol("A", positive=True)
+    fn = lambda e: getattr(getattr(e, "func", None), "__name__", "")   # noqa: E731
+    conds_all = []
+    inner = None
+    for r in rej:
+        l = r["leaf"]
+        tag_at = [i for i, (c_, _t) in enumerate(l.conds) if "breaks(" in str(c_)]
+        if not tag_at:
+            raise AnalysisError(f"{fq}: a rejecting pass does not leave a search over the components")
+        inner = l.cond_nodes[tag_at[-1]]
+        parts = []
+        for (c_, t_), node in list(zip(l.conds, l.cond_nodes))[tag_at[-1] + 1:]:
+            if isinstance(node, ast.If) and any(isinstance(x, ast.Raise) for x in ast.walk(node)):
+                continue        # refusal of a window shorter than the averaging length
+            parts.append(c_ if t_ else sp.Not(c_))
+        conds_all.append(sp.And(*parts) if len(parts) != 1 else parts[0])
+    if len(set(map(str, conds_all))) != 1:
+        raise AnalysisError(f"{fq}: several different rejection conditions: {conds_all}")
+    cond = conds_all[0]
+    decide = inner
+    # name the quantities of the examined series
+    owners = {a_.args[0] for a_ in sp.preorder_traversal(cond) if fn(a_) == "attr_amplitude"}
+    pos = {nm: sp.Symbol(nm, positive=True) for nm in ("sta_seconds", "lta_seconds", "max_sta_lta_ratio", "min_sta_lta_ratio")}
+    DT, NS = sp.Symbol("timeseries.dt_in_seconds", positive=True), sp.Symbol("timeseries.n_samples", positive=True)
 
-    def hook(name):
-        if name == "timeseries.amplitude":
-            return amp
-        return None
-    T = Translator(symbol_hook=hook, positive={"sta_seconds", "lta_seconds", "max_sta_lta_ratio", "min_sta_lta_ratio",
-                                               "timeseries.dt_in_seconds", "timeseries.n_samples", "n_samples"})
-    straight = [s for s in inner.body if s is not decide and isinstance(s, (ast.Assign, ast.AugAssign))]
-    forward_substitute([s for s in inner.body if isinstance(s, (ast.Assign, ast.AugAssign)) and s.lineno < decide.lineno], T)
-    cond = T.tr(decide.test)
-    # does the true branch reject?
-    true_rejects = any(call_name(c) == "append" and c.args and isinstance(c.args[0], ast.Constant) and c.args[0].value is False
-                       for b in decide.body for c in calls_in(b))
+    def named(e):
+        from ..pathtable import rewrite
+        table = {"attr_amplitude": amp, "attr_dt_in_seconds": DT, "attr_n_samples": NS}
+        e = rewrite(e, lambda x: fn(x) in table, lambda x: table[fn(x)])
+        ren = {sp.Symbol(k, real=True): v for k, v in pos.items()}
+        return rewrite(e, lambda x: x in ren, lambda x: ren[x])
+    cond = named(cond)
+    true_rejects = True
+
+    class _T:       # the few things the checks below ask of a translator
+        env: Dict[str, sp.Expr] = {}
+
+        @staticmethod
+        def sym(nm):
+            return pos.get(nm) or {"timeseries.n_samples": NS, "timeseries.dt_in_seconds": DT}.get(nm) or sp.Symbol(nm, real=True)
+    T = _T
+    ratios = [a_.args[0] for a_ in sp.preorder_traversal(cond) if fn(a_) in ("max", "amax", "nanmax", "min", "amin", "nanmin") and a_.args]
+    sta = lta = None
+    if ratios:
+        num, den = ratios[0].as_numer_denom()
+        sta, lta = num, den
+    T.env = {"sta_values": sta, "lta": lta}
     d = degree(cond, {amp: 1})
     key = norm_key(decide, 120)
     if d is None:
@@ -528,17 +704,9 @@ def _r5_r6_sta(ck: Checker, prog: Program):
     for nm in ("max_sta_lta_ratio", "min_sta_lta_ratio", "components"):
         if not rd.only_param(nm, decide):
             ck.violation("C13.R6", fq, f"{nm} rebound", f"parameter `{nm}` is rebound before the decision", loc=f.loc(decide))
-    # the examined series is the component of the current record
-    ts_def = [s for s in inner.body if isinstance(s, ast.Assign) and isinstance(s.targets[0], ast.Name) and s.targets[0].id == "timeseries"]
-    good = False
-    if ts_def:
-        v = ts_def[0].value
-        good = isinstance(v, ast.Call) and call_name(v) == "getattr" and len(v.args) == 2 and isinstance(v.args[0], ast.Name) \
-            and isinstance(v.args[1], ast.Name) and isinstance(inner.target, ast.Name) and v.args[1].id == inner.target.id
-        outer = parent_of(inner)
-        while outer is not None and not isinstance(outer, ast.For):
-            outer = parent_of(outer)
-        good = good and outer is not None and isinstance(outer.target, ast.Name) and v.args[0].id == outer.target.id
+    # the examined series is the component of the current record: every amplitude read belongs to getattr(<record>, <component of the search>)
+    good = isinstance(inner, ast.For) and isinstance(inner.target, ast.Name) and isinstance(inner.iter, ast.Name) and inner.iter.id == "components" \
+        and owners == {sp.Function("getattr")(REC, sp.Symbol(f"<{inner.target.id}>", real=True))}
     if good:
         ck.ok("C13.R6", fq, "timeseries = getattr(record, component)", nontrivial=False)
     else:
@@ -611,11 +779,11 @@ def _r5_r6_max(ck: Checker, prog: Program):
     got = _mask_pass_names(f)
     loop = _record_loop(f, got[1]) if got else None
     if loop is None:
-        fb = _comprehension_form(f, *got) if got else None
+        fb = _comprehension_form(f, *got, prog=prog) if got else None
         if fb is None or fb["decision"] is None:
             raise AnalysisError(f"{fq}: decision not found")
-        cond = _canon_rel(T.tr(fb["decision"]))
-        thr, val = T.sym("maximum_value_threshold"), T.sym(fb["value_var"])
+        cond = _canon_rel(fb["decision"])
+        thr, val = T.sym("maximum_value_threshold"), fb["value"]
         if isinstance(cond, sp.Gt) and equal(cond.lhs, thr) and equal(cond.rhs, val) and reaching(f).only_param("maximum_value_threshold", fb["site"]):
             ck.ok("C13.R6", fq, norm_key(fb["site"], 110), detail="keep iff value < maximum_value_threshold")
         else:
